@@ -253,6 +253,7 @@ def setup(inst):
                 box['dst'] = spec
                 populate(spec, inst['dest'], io)
                 box['before'] = describe(spec.inputs if io == 'in' else spec.outputs)
+                box['objs'] = identities(spec.inputs if io == 'in' else spec.outputs)
                 box['src_before'] = describe(Source.spec().inputs if io == 'in' else Source.spec().outputs)
                 getattr(spec, method)(Source, **kw)
 
@@ -266,12 +267,14 @@ def setup(inst):
             raise BuildError('Destination.define did not reach the call: %r' % (exc,))
         dst_spec, src_cls = box['dst'], Source
         out['dst_before'], out['src_before'] = box['before'], box['src_before']
+        out['dst_objs_before'] = box['objs']
     else:
         src_spec, dst_spec = ProcessSpec(), ProcessSpec()
         populate(src_spec, inst['src'], io)
         populate(dst_spec, inst['dest'], io)
         src_cls = type('Source', (), {'spec': classmethod(lambda cls: src_spec)})
         out['dst_before'] = describe(dst_spec.inputs if io == 'in' else dst_spec.outputs)
+        out['dst_objs_before'] = identities(dst_spec.inputs if io == 'in' else dst_spec.outputs)
         out['src_before'] = describe(src_spec.inputs if io == 'in' else src_spec.outputs)
         err, exc = '-', None
         try:
@@ -309,6 +312,62 @@ def objects(root):
 
     rec(root)
     return out
+
+
+def identities(root):
+    """{path (tuple of names): (port object, its ports dict | None, its mutable default object | None)} of a real tree; the
+    objects themselves are kept (not their id()), so that none can be collected and its id() reused."""
+    out = {}
+
+    def rec(p, path):
+        if isinstance(p, PortNamespace):
+            out[path] = (p, p.ports, None)
+            for k in p:
+                rec(p[k], path + (k,))
+        else:
+            has = getattr(p, 'has_default', None)
+            dflt = p.default if has is not None and has() and isinstance(p.default, (list, dict, set)) else None
+            out[path] = (p, None, dflt)
+
+    rec(root, ())
+    return out
+
+
+def model_identities(node, path=()):
+    """The same for a model tree: {path: (id, pid, default_id)} (0 = no such object)."""
+    out = {path: (node['id'], node['pid'], node['default_id'])}
+    for p in node['ports']:
+        out.update(model_identities(p, path + (name_of(p['name']),)))
+    return out
+
+
+def in_place_problems(dest0, objs_before, dest1, root_after):
+    """Allocation ids of the model <-> identity of the real objects of the DESTINATION: an object of the destination that the
+    TLA+ result keeps at a path (same id as before the call) must be the very same python object there, and an object the
+    TLA+ result allocates in the call must not be one that the destination had before."""
+    before = {}                                    # model id -> real object before the call
+    m0 = model_identities(dest0)
+    for path, ids in m0.items():
+        if path not in objs_before:
+            raise BuildError('destination built differently from the model: no port %r' % ('.'.join(path),))
+        for mid, obj in zip(ids, objs_before[path]):
+            if mid and obj is not None:
+                before[mid] = obj
+    old = {id(o) for o in before.values()}
+    after = identities(root_after)
+    problems = []
+    what = ('port object', '_ports mapping', 'default value object')
+    for path, ids in model_identities(dest1).items():
+        if path not in after:
+            continue                               # reported by the comparison of the trees
+        for k, (mid, obj) in enumerate(zip(ids, after[path])):
+            if not mid or obj is None:
+                continue
+            if mid in before and obj is not before[mid]:
+                problems.append(['.'.join(path) or '<root>', what[k], 'the object the destination had before the call', 'another object'])
+            elif mid not in before and id(obj) in old:
+                problems.append(['.'.join(path) or '<root>', what[k], 'an object made by the call', 'an object the destination had before the call'])
+    return problems
 
 
 def model_ids(node):
@@ -405,6 +464,10 @@ def run_instance(inst, expected, check_mutations=True):
         if gd != egd:
             problems.append({'what': 'get_description() of the destination', 'expected': json.dumps(egd, default=str, sort_keys=True)[:600],
                              'observed': json.dumps(gd, default=str, sort_keys=True)[:600]})
+    if not d:
+        ip = in_place_problems(inst['dest'], s['dst_objs_before'], expected['dest'], s['dst_root'])
+        if ip:
+            problems.append({'what': 'destination ports left in place (identity of the objects)', 'diffs': ip[:12]})
     src_after = describe(s['src_root'])
     if src_after != s['src_before']:
         problems.append({'what': 'the call changed the source', 'diffs': [list(x) for x in diff(s['src_before'], src_after)[:12]]})
